@@ -177,7 +177,8 @@ def gen_interrupts(rng):
                 if remaining > 12 and rng.random() < 0.7:
                     dist = pfx + bytes([0x20 | (fi & 0xF)]) + bytes(rng.getrandbits(8) for _ in range(11 - len(pfx)))
                 else:
-                    dist = pfx + bytes([0x30, 0, 0])
+                    # a stray Flow Control of any status: the layer transmits nothing, so none of them concerns the reception
+                    dist = pfx + bytes([rng.choice([0x30, 0x30, 0x31, 0x32]), 0, 0])
                 ops += [[0, 'rx', rid, int(ext), hx(dist)], [0, 'proc', 1, 1], [0, 'recv']]
             remaining -= (len(f) - len(pfx) - (2 if fi == 0 else 1))
             ops += [[0, 'rx', rid, int(ext), hx(f)], [0, 'proc', 1, 1], [0, 'recv']]
